@@ -17,6 +17,8 @@
     expandi <iforest>                                 → flat            iforest: ( id:keyhex child … ) …, the same id = the same object
     temp <inode> <n>                                  → <inode>         to_temporary with new object ids n, n+1, …
     write <inode> <n> <path> <inode value>            → E <inode> T <inode> / IndexError   seqs.update(temp.attrs, path, value, 'attrs') seen on the entry and the copy
+    t.text <rows>                                     → hex             json.dumps(rows, separators=(',', ':'))  (persistent.py:160-162)
+    t.read <text hex>                                 → ok <rows> / JSONDecodeError / bad-rows   json.loads, read the way deserialize reads a row
     t.inv <module> <keyhex=rank,…|->                  → Loaded=<bool> SymOK=<bool> ViaOK=<bool>   the hypotheses of C14.order / C14.rt / C14.rt_exact, evaluated by their Lean definitions
     dsn.join <delim char hex> <part;part;…>           → hex             DSN.join
     dsn.full <dsn> <elem;elem;…>                      → hex             ModuleDSN.full_joined
@@ -27,6 +29,7 @@ import Tranp.Driver.Common
 import Tranp.Model.SymbolJson
 import Tranp.Lemmas.SymbolJson
 import Tranp.Lemmas.SymbolJsonExact
+import Tranp.Model.SymbolJsonText
 
 namespace Tranp.Driver.SymJson
 open Tranp Tranp.SymbolJson Tranp.Driver
@@ -253,6 +256,20 @@ def step (st : St) : List String → St × String
       match importKeep st.world st.tbl rows with
       | (t, none) => ({ st with tbl := t }, "ok")
       | (t, some e) => ({ st with tbl := t }, e.toString)
+    | none => (st, "bad-op")
+  | ["t.text", rows] =>
+    match parseRows rows with
+    | some rows => (st, Str.hex (writeText rows))
+    | none => (st, "bad-op")
+  | ["t.read", text] =>
+    match Str.unhex text with
+    | some text =>
+      match Tranp.Lark.parseJson text with
+      | none => (st, "JSONDecodeError")
+      | some j =>
+        match jsonToRows j with
+        | some rows => (st, if rows.isEmpty then "ok -" else "ok " ++ "|".intercalate (rows.map fun kr => showRow kr.1 kr.2))
+        | none => (st, "bad-rows")
     | none => (st, "bad-op")
   | ["t.inv", m, ranks] =>
     match Str.unhex m with
